@@ -417,7 +417,7 @@ def parse_lens(s):
     return [tuple(int(x) for x in p.split(":")) for p in s.split(",")]
 
 
-def mutants(data, lens, rng, small_limit=160, all_bytes=True, max_trunc=None):
+def mutants(data, lens, rng, small_limit=160, all_bytes=True, max_trunc=None, few=False):
     """yield (kind, bytes) - truncations, length-field perturbations, junk inside each
     length-delimited region (with the enclosing lengths adjusted), junk after the structure,
     single byte changes"""
@@ -447,18 +447,21 @@ def mutants(data, lens, rng, small_limit=160, all_bytes=True, max_trunc=None):
         fields.append((off, w, val))
     top = lambda w: 256 ** w - 1
     all_fields = fields
-    if len(fields) > 24:
+    if few and len(fields) > 6:
+        pick = set([0, 1, len(fields) - 1] + [rng.randrange(len(fields)) for _ in range(3)])
+        fields = [fields[i] for i in sorted(pick)]
+    elif len(fields) > 24:
         pick = set([0, 1, 2, 3, len(fields) - 1, len(fields) - 2] + [rng.randrange(len(fields)) for _ in range(6)])
         fields = [fields[i] for i in sorted(pick)]
     # length-field perturbations
     for off, w, val in fields:
-        for nv in (val + 1, val - 1, 0, top(w), val + 2, val // 2):
+        for nv in ((val + 1, val - 1, 0, top(w)) if few else (val + 1, val - 1, 0, top(w), val + 2, val // 2)):
             if 0 <= nv <= top(w) and nv != val:
                 res += out("length", data[:off] + nv.to_bytes(w, "big") + data[off + w:])
     # junk inside a region, enclosing lengths made consistent
     for off, w, val in fields:
         end = off + w + val
-        for junk in (b"\x00", b"\xff\x01"):
+        for junk in ((b"\x00",) if few else (b"\x00", b"\xff\x01")):
             b = bytearray(data[:end] + junk + data[end:])
             ok = True
             for o2, w2, v2 in sorted(set(all_fields[:64] + fields)):
